@@ -30,7 +30,9 @@ ASSUMPTIONS = [
     "POSIX path semantics (os.path is posixpath)",
     "os.path.isfile/open see the same file system as the harness' audit hook",
 ]
-TRUSTED_EXTRA = ["C09: posixpath.normpath/join/dirname are modelled (Path/Model.lean) and compared on every case"]
+TRUSTED_EXTRA = ["C09: posixpath.normpath/join/dirname are modelled (Path/Model.lean) and compared on every case",
+                 "C09: tools/regen_pathcfg.py (structure of Template.__init__ / TemplateLookup read with Python's ast)"]
+REGEN = ["PathCfg"]
 
 SEGS = ["a", "sub", "..", ".", "", "..a", "a..", "..."]
 SEPS = ["/", "//", "\\"]
